@@ -39,7 +39,7 @@ def last_value(trace_text, var):
 
 def last_l(r):
     """Value of the trace index l in the last state TLC printed (the full output: vkit truncates trace_text)."""
-    ms = re.findall(r"^/\\ l = (\d+)", r.out, re.M)
+    ms = re.findall(r"^(?:/\\ )?l = (\d+)", r.out, re.M)      # a spec with a single variable prints "l = 5"
     return int(ms[-1]) if ms else 2
 
 
